@@ -309,3 +309,19 @@ pub fn neg_write_loop<W: std::io::Write>(w: &mut W, txt: &str) -> std::io::Resul
     }
     Ok(())
 }
+
+// ---------------------------------------------------------------- R16.2 P3: an iterator re-wrapped in a loop
+pub fn pos_nested_chain<'a>(parts: &'a [Vec<u32>]) -> Box<dyn Iterator<Item = u32> + 'a> {
+    let mut all: Box<dyn Iterator<Item = u32> + 'a> = Box::new(std::iter::empty());
+    for p in parts {
+        all = Box::new(all.chain(p.iter().copied()));
+    }
+    all
+}
+pub fn neg_flat_chain<'a>(parts: &'a [Vec<u32>]) -> Box<dyn Iterator<Item = u32> + 'a> {
+    let mut iters = vec![];
+    for p in parts {
+        iters.push(p.iter().copied());
+    }
+    Box::new(iters.into_iter().flatten())
+}
